@@ -1282,6 +1282,30 @@ fn into_zero_offset_run_array<R: RunEndIndexType>(
         return Ok(run_array);
     }
 
+    if run_array.is_empty() {
+        // A zero-length slice has no runs: encode empty run_ends and values
+        // rather than a single run ending at 0.
+        let new_run_ends = unsafe {
+            // Safety:
+            // An empty run_ends array is trivially valid.
+            ArrayDataBuilder::new(R::DATA_TYPE)
+                .len(0)
+                .add_buffer(BufferBuilder::<R::Native>::new(0).finish())
+                .build_unchecked()
+        };
+        let new_values = run_array.values().slice(0, 0).into_data();
+        let builder = ArrayDataBuilder::new(run_array.data_type().clone())
+            .len(0)
+            .add_child_data(new_run_ends)
+            .add_child_data(new_values);
+        let array_data = unsafe {
+            // Safety:
+            // An empty run array with empty children is valid.
+            builder.build_unchecked()
+        };
+        return Ok(array_data.into());
+    }
+
     // The physical index of original run_ends array from which the `ArrayData`is sliced.
     let start_physical_index = run_ends.get_start_physical_index();
 
